@@ -1050,6 +1050,29 @@ func (c *CEnv) call(x *ast.CallExpr) CVal {
 			as = append(as, c.defaultLit(c.ev(a)))
 		}
 		return CVal{S: e.ufApp(strings.Trim(nm.Value, `"`), as, t), T: t}
+	case "ufelem", "uflen":
+		// ufelem("ext:pkg.Func", k, args...): element k of the []string result of a pure external function;
+		// uflen("ext:pkg.Func", args...): its length (int mode only)
+		nm, ok := arg(0).(*ast.BasicLit)
+		if !ok || e.bv() {
+			return c.fail(name + "(\"name\", ...) (int mode)")
+		}
+		first := 1
+		var k CVal
+		if name == "ufelem" {
+			k = c.toIdx(c.ev(arg(1)))
+			first = 2
+		}
+		var as []CVal
+		for _, a := range x.Args[first:] {
+			as = append(as, c.defaultLit(c.ev(a)))
+		}
+		base := strings.Trim(nm.Value, `"`)
+		if name == "uflen" {
+			return CVal{S: e.ufAppSort(base+"#len", as, "Int"), T: types.Typ[types.Int]}
+		}
+		row := e.ufAppSort(base+"#row", as, fmt.Sprintf("(Array %s String)", e.idxSort()))
+		return CVal{S: fmt.Sprintf("(select %s %s)", row, k.S), T: types.Typ[types.String]}
 	case "ghost":
 		// ghost("name", ResultType, ref): ghost field of an object (a heap component)
 		nm, ok := arg(0).(*ast.BasicLit)
